@@ -53,10 +53,15 @@ def gen(tier, rng, scale):
     for _ in range((50 if tier == "quick" else 1000) * scale):
         recs = E.gen_history(crng, grammar=crng.chance(1, 2))
         c = {"items": recs, "layout": [crng.chance(1, 2), crng.chance(1, 2), crng.chance(1, 3), crng.chance(3, 4), crng.choice(["mixed", "mixed", "std"])]}
+        TP = ["kmem:rss_stat", "kmem:mm_page_alloc", "exceptions:page_fault_user", "syscalls:sys_enter_mmap", "sched:sched_stat_runtime"]
         if crng.chance(1, 3):
             c["layout"].append(crng.choice([0, 1]))        # two events recorded together; the task records belong to the first or the second
-        elif crng.chance(1, 3):
-            c["layout"] += [None, False, "cycles"]         # `perf record -e cycles -c N`: a hardware event with a fixed period
+            if crng.chance(1, 3):
+                c["layout"] += [False, crng.choice(TP)]    # ... the main event being a tracepoint (among them the ones the converter also turns into markers)
+        elif crng.chance(1, 2):
+            # `perf record -e cycles -c N`: a hardware event with a fixed period; `perf record -e <tracepoint>`: a sample per event - every sample of the
+            # main event is a sample of its thread, whatever else the converter derives from that event
+            c["layout"] += [None, False, crng.choice(["cycles"] + TP)]
         if crng.chance(1, 3):
             c["shuffle"] = crng.next()
         if crng.chance(1, 4):
